@@ -26,6 +26,10 @@ func NewDistribution(
 		randomFn = rand.Intn
 	}
 
+	if iterationDuration <= 0 {
+		return iterationDuration, rateFn, fmt.Errorf("iteration duration %s is not positive", iterationDuration)
+	}
+
 	switch distributionTypeArg {
 	case NoneDistribution:
 		return iterationDuration, rateFn, nil
